@@ -192,6 +192,55 @@ def work_extract(chunk):
     return col
 
 
+def work_extract_long(chunk):
+    """logs of 24 entries and requested time lists of 1..12 entries (contiguous ranges, every other step, every third step, scattered)"""
+    col = engines.Collector()
+    L = 24
+    timelists = [list(range(a, a + n)) for a in (0, 5) for n in (1, 8, 9, 12)] + [list(range(a, L, s)) for a in (0, 1) for s in (2, 3)] + [[0, 1, 2, 3, 5, 8, 13, 21, 22, 23], [23, 0, 11, 4, 7, 9, 15, 2, 19, 20, 1]]
+    for kind in chunk:
+        alpha = {"task": TS, "component": CS, "worker": WS, "facility": FS}[kind]
+        logs = [s for s in _long_logs(alpha) if len(s) == 40][:: (3 if kind in ("task", "component") else 1)]
+        logs = [s[:L] for s in logs]
+        cls = {"task": BaseTask, "component": BaseComponent, "worker": BaseWorker, "facility": BaseFacility}[kind]
+        for a in range(0, len(logs) - 2, 3):
+            objs = []
+            for i in range(3):
+                o = cls("%s%d" % (kind[0], i), ID="%s%d" % (kind[0], i))
+                o.state_record_list = list(logs[a + i])
+                objs.append(o)
+            if kind == "task":
+                cont = BaseWorkflow(objs)
+                fns = {BaseTaskState.NONE: cont.extract_none_task_list, BaseTaskState.READY: cont.extract_ready_task_list, BaseTaskState.WORKING: cont.extract_working_task_list, BaseTaskState.FINISHED: cont.extract_finished_task_list}
+            elif kind == "component":
+                cont = BaseProduct(objs)
+                fns = {BaseComponentState.NONE: cont.extract_none_component_list, BaseComponentState.READY: cont.extract_ready_component_list, BaseComponentState.WORKING: cont.extract_working_component_list,
+                       BaseComponentState.FINISHED: cont.extract_finished_component_list}
+            elif kind == "worker":
+                cont = BaseTeam("tm", ID="tm", worker_list=objs)
+                fns = {BaseWorkerState.FREE: cont.extract_free_worker_list, BaseWorkerState.WORKING: cont.extract_working_worker_list}
+            else:
+                cont = BaseWorkplace("wp", ID="wp", facility_list=objs)
+                fns = {BaseFacilityState.FREE: cont.extract_free_facility_list, BaseFacilityState.WORKING: cont.extract_working_facility_list}
+            for tl in timelists:
+                for st, fn in fns.items():
+                    col.evaluations += 1
+                    col.checks["c19.extract-long." + kind] += 1
+                    try:
+                        got = fn(list(tl))
+                    except Exception as e:
+                        col.violation(viol("C19:extract-raised:%s:%s" % (kind, type(e).__name__), {"kind": kind, "times": tl, "error": repr(e)}))
+                        continue
+                    want = [o for o in objs if all(t < len(o.state_record_list) and o.state_record_list[t] == st for t in tl)]
+                    key = (kind, "long", a, tuple(tl), int(st))
+                    col.states.add(hash(key))
+                    if want and len(want) < len(objs):
+                        col.nontrivial.add(hash(key))
+                    if sorted(map(id, got)) != sorted(map(id, want)):
+                        col.violation(viol("C19:extract-returns-wrong-objects:%s:long-logs" % kind, {"kind": kind, "state": int(st), "logs": [[int(s) for s in o.state_record_list] for o in objs], "times": tl,
+                                                                                                   "got": [o.ID for o in got], "expected": [o.ID for o in want]}))
+    return col
+
+
 def work_containers(chunk):
     """the container-level chart data (workflow / product / organization) must be the concatenation of the members' rows"""
     col = engines.Collector()
@@ -306,6 +355,7 @@ def run(tier, seed):
     col = engines.fanout(items, work_rle, seed=seed, chunks_per_proc=4)
     ex_items = [(k, n, L) for k in ("task", "component", "worker", "facility") for n, L in (((1, 3), (2, 2), (3, 1)) if tier == "quick" else ((1, 3), (2, 3), (3, 2)))]
     col.merge(engines.fanout(ex_items, work_extract, seed=seed, chunks_per_proc=1))
+    col.merge(engines.fanout(["task", "component", "worker", "facility"], work_extract_long, seed=seed, chunks_per_proc=1))
     col.merge(work_dates([0]))
     col.merge(engines.fanout(list(range(1, 6 if tier == "quick" else 8)), work_containers, seed=seed, chunks_per_proc=1))
     from .. import families as F
@@ -333,7 +383,9 @@ def run(tier, seed):
 def replay(v):
     d = v["detail"]
     kind = d.get("kind")
-    if "extract" in v["sig"]:
+    if "long-logs" in v["sig"]:
+        col = work_extract_long([kind])
+    elif "extract" in v["sig"]:
         col = work_extract([(kind, len(d["logs"]), max([len(x) for x in d["logs"]] + [1]))])
     elif "last-logged-step" in v["sig"]:
         col = work_integration([(d["spec"], tuple(d["absence"]), d["removed"])])
